@@ -124,6 +124,8 @@ def run_block(case, res):
         res["machinery"].append("cannot send %s on %s: %r" % (op, cfg.name, o.brief()))
         return
     req = drivers.open_request(cfg, w.take_request())
+    if case.get("sizes"):
+        return run_sizes(case, res, cfg, op, w, req, it)
     skels = skeleton_pdus(op, req.request_id)
     name, pdu = skels[case["skel"]]
     level = case["level"]
@@ -167,6 +169,55 @@ def run_block(case, res):
     res.distinct(n)
     if len(res["samples"]) < 1:
         res.sample({"cfg": cfg.name, "op": op, "skeleton": name, "level": level, "datagrams": n})
+    w.close()
+
+
+def run_sizes(case, res, cfg, op, w, req, it):
+    """Well-formed replies of every datagram size up to the 4080-octet receive limit (and a few beyond), sealed
+    correctly, with a wrong MAC, and with a damaged last octet."""
+    mod, fast = drivers.subject()
+    n1 = BASE + (2, 1, 1)
+    seen = set()
+    n = 0
+    for plen in case["payloads"]:
+        pdu = rb.build_pdu(rb.PDU_RESPONSE, req.request_id, 0, 0, [(n1, rb.enc_octets(bytes([0x41 + plen % 26]) * plen))])
+        if cfg.version != "v3":
+            good = rb.build_community_msg(req.version, req.community, pdu)
+        else:
+            good = drivers.seal_reply(cfg, req.msg_id, cfg.engine_id, req.boots, req.time, rb.build_scoped(cfg.engine_id, b"", pdu))
+        if len(good) in seen or len(good) > 4200:
+            continue
+        seen.add(len(good))
+        variants = [("sealed", good), ("last-octet-damaged", good[:-1] + bytes([good[-1] ^ 0x55]))]
+        if cfg.version == "v3" and cfg.auth:
+            try:
+                r = rb.parse_message(good, strict=False)
+                k = good.find(r.auth_params)
+                variants.append(("wrong-mac", good[:k] + bytes(12) + good[k + 12 :]))
+            except rb.StrictError:
+                pass
+        for vname, dg in variants:
+            w.inject(dg[:4080] if len(dg) > 4080 and case.get("clip") else dg)
+            if op in ("getnext", "getbulk"):
+                it = fast.GetIter(rb.oid_str(BASE), 10) if op == "getbulk" else fast.GetIter(rb.oid_str(BASE))
+            out = w.recv(op, it)
+            n += 1
+            cls, ok = classify(out, op)
+            res.outcome(cls)
+            if ok and vname == "sealed" and len(dg) <= 4080 and op == "get" and not (out.kind == "ok" and isinstance(out.value, bytes) and len(out.value) == plen):
+                cls, ok = "lost:" + cls, False
+            if not ok:
+                res.violation(
+                    "e2e/%s/%s/size: %s %s" % (cfg.name if cfg.version == "v3" else cfg.version, op, cls, _cls(str(out.exc))),
+                    "pending %s on %s; %s reply of %d octets carrying an OCTET STRING of %d -> %s" % (op, cfg.name, vname, len(dg), plen, out.brief()),
+                    {"cfg": case["cfg"], "op": op, "datagram": dg, "replay_kind": "datagram", "req_ids": [req.request_id, req.msg_id]},
+                )
+            if not w.client_queue_empty():
+                w.flush_client_queue()
+    res.count("datagrams", n)
+    res.count("size_datagrams", n)
+    res.count("blocks")
+    res.distinct(n)
     w.close()
 
 
@@ -335,6 +386,15 @@ def gen_cases(tier):
                         if level == "raw" and cfg.version == "v3" and sk % 4:
                             continue
                     yield {"cfg": cfg.describe(), "op": op, "skel": sk, "level": level, "full": thorough and (cfg.version == "v2c" or cfg.priv == 2)}
+    # replies of every size up to the receive limit
+    for cfg in cfgs:
+        for op in ("get", "getbulk"):
+            if cfg.version == "v3" and cfg.priv:
+                pl = sorted(set(list(range(0, 4100, 97 if not thorough else 13)) + [x + d for x in (0, 128, 256, 1024, 1900, 1960, 2048, 3900, 3960, 4000) for d in range(-4, 40)]))
+                pl = [x for x in pl if x >= 0]
+            else:
+                pl = list(range(0, 4100, 1 if thorough or op == "get" else 7))
+            yield {"cfg": cfg.describe(), "op": op, "sizes": True, "payloads": pl}
     # the Python wrappers: a slice of the same deviations through both public clients
     for driver in ("sync", "async"):
         for cfg in (Cfg("v2c"), Cfg("v3", auth=2, priv=2)) + ((Cfg("v1"), Cfg("v3")) if thorough else ()):
@@ -391,7 +451,7 @@ def run(tier):
         "single substitutions (256), single insertions/deletions (30) and pairs of substitutions (%s) of ~200 skeleton messages; header tampering of every TLV node (17 length forms, 30 tags, "
         "long-form tags); every relative-OID varbind name of 0..3 octets over 14 symbols after 7 short absolute names; decrypt path: salt length 0..16 x ciphertext length {0..64, C-16..C} x 3 patterns and every truncation / substitution of an encrypted scoped PDU. "
         "PYX end to end: v1, v2c, 7 v3 security configurations x pending {get, get_many, getnext, getbulk, refresh} x skeleton replies (18 value kinds, relative OIDs, error status, Report, "
-        "foreign PDU) x all truncations, single substitutions (%s) and header tamperings, applied before sealing (MAC valid) and to the raw datagram. Every input is distinct." % (
+        "foreign PDU; one-varbind replies of every datagram size up to the 4080-octet limit, sealed / wrong MAC / damaged) x all truncations, single substitutions (%s) and header tamperings, applied before sealing (MAC valid) and to the raw datagram. Every input is distinct." % (
             "4 (7 major entry points) / 3" if thorough else "3", 6 if thorough else 5, 10 if thorough else 8, "30x30" if thorough else "8x8", "256 symbols on v2c and AES, 30 elsewhere" if thorough else "30 symbols")
     )
     rec.assume(
